@@ -105,7 +105,13 @@ func procScript(in PPIn, name, fifo string) string {
 	switch {
 	case in.Stderr == "empty":
 	case strings.HasPrefix(in.Stderr, "err-"):
-		fmt.Fprintf(&sb, "echo '{\"errorCode\":%q,\"errorMessage\":\"the plugin says no\"}' >&2\n", strings.TrimPrefix(in.Stderr, "err-"))
+		// a structured error: with a message, with an empty message, without the message field, with metadata only next to the code
+		code := strings.TrimPrefix(in.Stderr, "err-")
+		body := []string{`"errorMessage":"the plugin says no"`, `"errorMessage":""`, ``, `"errorMetadata":{"k":"v"}`}[(len(name)+len(in.Cmd)+in.Exit)%4]
+		if body != "" {
+			body = "," + body
+		}
+		fmt.Fprintf(&sb, "echo '{\"errorCode\":%q%s}' >&2\n", code, body)
 	case in.Stderr == "incompleteJSON":
 		sb.WriteString("echo '{}' >&2\n")
 	case in.Stderr == "nonJSON":
@@ -265,13 +271,16 @@ func runPluginProc() int {
 				obs.Class = "executableFileError"
 			case errors.As(callErr, &me):
 				obs.Class = "malformedError"
-			case strings.Contains(callErr.Error(), "plugin executable file name must be"):
+			case func() bool { s, _ := errText(callErr); return strings.Contains(s, "plugin executable file name must be") }():
 				obs.Class = "nameError"
 			default:
 				obs.Class = "otherError"
 			}
 			if callErr != nil {
-				obs.Note = callErr.Error()
+				var ep bool
+				if obs.Note, ep = errText(callErr); ep {
+					obs.Panic = true // the error value cannot even be printed
+				}
 				if len(obs.Note) > 300 {
 					obs.Note = obs.Note[:300]
 				}
